@@ -984,17 +984,6 @@ func (this *encodingTask) encode(res *encodingTaskResult) {
 		evt := kanzi.NewEvent(kanzi.EVT_AFTER_ENTROPY, int(this.currentBlockID),
 			int64((written+7)>>3), checksum, hashType, time.Now())
 		notifyListeners(this.listeners, evt)
-
-		if v, hasKey := this.ctx["verbosity"]; hasKey {
-			blockOffset := this.obs.Written()
-
-			if v.(uint) > 4 {
-				msg := fmt.Sprintf("{ \"type\":\"%s\", \"id\":%d, \"offset\":%d, \"skipFlags\":%.8b }",
-					"BLOCK_INFO", int(this.currentBlockID), blockOffset, skipFlags)
-				evt1 := kanzi.NewEventFromString(kanzi.EVT_BLOCK_INFO, int(this.currentBlockID), msg, time.Now())
-				notifyListeners(this.listeners, evt1)
-			}
-		}
 	}
 
 	if verifOn {
@@ -1032,6 +1021,20 @@ func (this *encodingTask) encode(res *encodingTaskResult) {
 
 	if verifOn {
 		verifStep(verifSideEncode, this.currentBlockID, verifIOBegin, this.processedBlockID)
+	}
+
+	if len(this.listeners) > 0 {
+		// The offset of the block in the shared bitstream is only known (and the shared
+		// bitstream may only be accessed) once this task has been granted the access
+		if v, hasKey := this.ctx["verbosity"]; hasKey {
+			if v.(uint) > 4 {
+				blockOffset := this.obs.Written()
+				msg := fmt.Sprintf("{ \"type\":\"%s\", \"id\":%d, \"offset\":%d, \"skipFlags\":%.8b }",
+					"BLOCK_INFO", int(this.currentBlockID), blockOffset, skipFlags)
+				evt1 := kanzi.NewEventFromString(kanzi.EVT_BLOCK_INFO, int(this.currentBlockID), msg, time.Now())
+				notifyListeners(this.listeners, evt1)
+			}
+		}
 	}
 
 	// Emit block size in bits (max size pre-entropy is 1 GB = 1 << 30 bytes)
